@@ -43,6 +43,13 @@ type Options struct {
 	Extra  func(r *rep.Report, tier string)
 	Rule   string
 	Assume []string
+	// LibRace switches the happens-before race oracle on for every instance and
+	// reports a race between two library accesses (vs.End.LibRace) as a
+	// violation "<group>/data-race/<signature>" when the scenario's own oracle
+	// is satisfied: exploring preemptions at synchronisation operations only is
+	// exhaustive for race-free executions only, and an unordered pair of
+	// accesses inside the code under test is exactly what it would miss.
+	LibRace bool
 }
 
 type result struct {
@@ -60,6 +67,24 @@ func Main(o Options) {
 	bound := flag.Int("bound", -1, "override deviation bound")
 	flag.Parse()
 	insts, budget := o.Build(*tier)
+	if o.LibRace {
+		for i := range insts {
+			insts[i].Race = true
+			inner := insts[i].Scenario
+			insts[i].Scenario = func() (func(), func(*vs.End) (string, string)) {
+				body, check := inner()
+				return body, func(e *vs.End) (string, string) {
+					if tag, detail := check(e); tag != "" {
+						return tag, detail
+					}
+					if rc := e.LibRace(); rc != nil {
+						return "data-race/" + rc.Signature, rc.A + " <-> " + rc.B
+					}
+					return "", ""
+				}
+			}
+		}
+	}
 	if *only != "" {
 		var f []Instance
 		for _, in := range insts {
